@@ -17,7 +17,8 @@ theorem C11_new_id_is_count (p : Pool) (m : Nat) (isMap : Bool) :
   simp only [emitRef_tasks, modReq_tasks]
   refine ⟨by simp, fun i hi => by simp [List.getElem?_append_left hi], rfl, ?_⟩
   exact ⟨(p.tasks ++ [newTask m isMap (if isMap = true then ArgD.elem (p.reqs[m]?.getD default).stars
-      ((p.reqs[m]?.getD default).pulled - 1) else ArgD.apply)])[p.tasks.length]'(by simp), by simp, by simp [newTask],
+      ((p.reqs[m]?.getD default).pulled - 1) else ArgD.apply) (p.reqs[m]?.getD default).endCb
+      (p.reqs[m]?.getD default).cancelCb])[p.tasks.length]'(by simp), by simp, by simp [newTask],
     by simp [newTask]⟩
 
 /-- **never reused, never reordered**: every tame step keeps the number of tasks (Inv/Tame.lean), and the only
